@@ -9,6 +9,7 @@ import Nice.Drv.Addr
 import Nice.Drv.Stun
 import Nice.Drv.Sock
 import Nice.Drv.Lifecycle
+import Nice.Drv.Gather
 open Nice.Drv
 
 structure St where
@@ -34,6 +35,7 @@ def step (s : St) (line : String) : St × String :=
   | "plist" :: ws => let (p, o) := plistStep s.prio ws; ({ s with prio := p }, o)
   | "addr" :: ws => (s, addrStep ws)
   | "lc" :: ws => (s, lcStep ws)
+  | "gather" :: ws => (s, gatherStep ws)
   | "sdp" :: ws => let (t, o) := sdpStep s.addr ws; ({ s with addr := t }, o)
   | _ => (s, "bad-op")
 
